@@ -176,3 +176,17 @@ Proof.
         with (adj_lcps (rev (map fst res)) ++ [lcp_len (snd (last (rev (map fst res)) dflt)) (vright p)]).
       apply removelast_last.
 Qed.
+
+Definition InsertionOK (wl : bool) : Prop := SorterOK wl (fun d l lcp => Some (insertion wl d l lcp)).
+
+(** insertion sort without LCP output is proved *)
+Theorem insertion_nolcp_ok : InsertionOK false.
+Proof.
+  intros p l lcp out lcp' HP HN HL H. unfold insertion in H. injection H as <- <-.
+  destruct (insertion_sort_ok p l HP) as [P S]. split; [exact P|split; [exact S|reflexivity]].
+Qed.
+
+(** ... and so is the LCP variant: both insertion sorts meet the contract at every depth *)
+Theorem insertion_ok wl : InsertionOK wl.
+Proof. destruct wl; [exact lcp_insertion_ok|exact insertion_nolcp_ok]. Qed.
+
